@@ -1,6 +1,7 @@
 package main
 
 import (
+	"encoding/binary"
 	"fmt"
 	"github.com/unravelin/null"
 	"reflect"
@@ -686,6 +687,15 @@ func runArbitrary(c *Ctx) {
 			tc = newTypeCase(catalogueJSON[(i/8)%len(catalogueJSON)], cfg)
 			jsonish = true
 		}
+		// ... and a share belongs to the types with interned strings (tables keyed by the payload)
+		if i%8 == 6 {
+			if (i/8)%2 == 0 {
+				tc = newTypeCase(reflect.TypeOf(Rec{}), cfg)
+			} else {
+				cfg.WithNull = true
+				tc = newTypeCase(reflect.TypeOf(WithNull{}), cfg)
+			}
+		}
 		d := 2
 		if jsonish {
 			d = 1
@@ -783,6 +793,25 @@ func runArbitrary(c *Ctx) {
 				run(append(append([]byte{tg, 0x01}, h...), 1, 2, 3), "huge-entry-length")
 				run(append(append([]byte{tg}, h...), h...), "huge-count-and-length")
 				run(append(append([]byte{tg, 0x02, 0x01, 0x05}, h...), 9), "huge-second-entry")
+			}
+		}
+		// every field of a struct target present with the smallest payload of every wire type (an empty
+		// string, a zero count, zero fixed-width values): the paths that special-case "nothing there"
+		if tc.T.Kind() == reflect.Struct {
+			for fi := 0; fi < tc.T.NumField(); fi++ {
+				sf := tc.T.Field(fi)
+				if skipped(sf) {
+					continue
+				}
+				var idx int
+				if _, err := fmt.Sscanf(sf.Tag.Get("plenc"), "%d", &idx); err != nil || idx < 0 || idx > 1<<20 {
+					continue
+				}
+				for wt, payload := range map[int][]byte{0: {0}, 1: {0, 0, 0, 0, 0, 0, 0, 0}, 2: {0}, 3: {0}, 5: {0, 0, 0, 0}} {
+					tagb := binary.AppendUvarint(nil, uint64(idx)<<3|uint64(wt))
+					run(append(tagb, payload...), "minimal-field")
+					run(append(append(append([]byte{}, tagb...), payload...), append(tagb, payload...)...), "minimal-field-twice")
+				}
 			}
 		}
 		// every single-byte varint of a short valid encoding replaced by values at the int/int64 conversion
